@@ -354,5 +354,7 @@ Proof.
   - intros ls st' Hb H. apply n2_dead_not_final. eapply Hclosed; eauto.
   - intros ls st' l st'' Hb H Hs. eapply n2_only_waits; [|exact Hs]. eapply Hclosed; eauto.
 Qed.
+(*DBG*)
 
-Show. Abort.  
+
+
